@@ -266,3 +266,33 @@ fn c16_bool_modular() {
     kani::cover!(v, "COVER:true");
     kani::cover!(true, "COVER:end");
 }
+
+/// C13 on 32-bit ARM: in all three entry cases the entry sequence leaves the argument registers, the
+/// stack pointer and the link register alone (own harness: the C16 harnesses carry known findings whose
+/// failing assertions would mask it)
+#[kani::proof]
+#[kani::unwind(14)]
+#[kani::stub(crate::injector_core::common::read_bytes, rec_read_bytes)]
+#[kani::stub(crate::injector_core::common::patch_function, rec_patch_function)]
+fn c13_arm_args() {
+    let src: u32 = kani::any();
+    let fake: u32 = kani::any();
+    kani::assume(src != 0 && fake != 0 && src % 4 != 2);
+    unsafe {
+        ORIG = kani::any();
+    }
+    let g = PatchArm::replace_function_with_other_function(fp_int(src as usize), fp_int(fake as usize));
+    unsafe {
+        let e = arm_entry_decode(&P_PATCH, src & !1, src & 1 == 1);
+        let ok = match e {
+            // r0-r3 carry the arguments (and the hidden result pointer), sp the stack, lr the return address
+            Some(e) => e.written & 0b0110_0000_0000_1111 == 0,
+            None => false,
+        };
+        assert!(ok, "OBL:C13.arm.entry.args: the entry sequence writes no argument register (r0-r3), nor sp or lr: the fake receives the caller's arguments, stack and return address unchanged");
+    }
+    std::mem::forget(g);
+    kani::cover!(src & 1 == 1, "COVER:thumb");
+    kani::cover!(src & 1 == 0, "COVER:arm");
+    kani::cover!(true, "COVER:end");
+}
